@@ -34,6 +34,7 @@ Member -> Member: key=id ':' Value ;
 // imports from several modules, several symbols each
 const zzA = "./util/strings".trimAll("./util/strings".padLeft("x", 3));
 const zzB: "./model/node".Node = new "./model/node".Leaf("./model/kinds".Kind.Ident, "./model/kinds".defaultFlags);
+const zzD = "./common".debugLog("../common".isTrivia(1), "./common/x".a, "../common/x".b);
 const zzC = "../shared/log".debug("./util/strings".join(["a", "b"]), "../shared/log".Level.Info);
 {{end}}
 
